@@ -13,7 +13,7 @@ def _extra(lines, verdicts):
             f = case.split()
             fk = re.sub(r"(?<=garb).*|(?<=ver).*", "", f[5])
             if fk.startswith("burst"):
-                kills = kills + int(f[6])
+                kills = kills + obs.count("R@") + obs.count("F@")
             faults[fk] = faults.get(fk, 0) + 1
             b = "1" if f[3] == "1" else "2-4" if int(f[3]) <= 4 else "5-20" if int(f[3]) <= 20 else "21-50"
             inflight[b] = inflight.get(b, 0) + 1
@@ -28,8 +28,9 @@ def _extra(lines, verdicts):
     return {"fault_kinds": faults, "requests_in_flight": inflight, "client_outcome_classes": classes,
             "max_completion_ms": tmax, "connection_traces_replayed_through_model": conns,
             "cases_skipped_because_setup_failed_5_times": skipped,
+            "cases_not_run_total_incl_runner_starved": sum(1 for v in verdicts if (v or "").startswith("ok skipped")),
             "sample_case_truncated": (lines[0][:380] + " ...") if lines else "",
-            "burst_rounds_with_a_kill_while_requests_are_submitted": kills}
+            "burst_connections_killed_while_requests_were_being_submitted": kills}
 
 
 def _post(lines, verdicts):
@@ -39,10 +40,12 @@ def _post(lines, verdicts):
     if not lines:
         return out
     n = len(lines)
-    sk = [ln for ln in lines if ln.split("|", 1)[-1].strip().startswith("skip")]
-    # set-up failed five times in a row (no free address/port, ...): counted not-run, small cap
+    # not-run: set-up failed five times in a row (no free address/port, ...), or the driver found a broken
+    # correspondence while the runner's own runtime was starved (stall >= 200 ms): counted, small cap
+    sk = [ln for ln, v in zip(lines, verdicts) if (v or "").startswith("ok skipped")]
     if len(sk) * 50 > n:
-        out.append(("diff", sk[0][:300], f"diff {len(sk)} of {n} cases could not be set up (cap 2 %)"))
+        out.append(("diff", sk[0][:300], f"diff {len(sk)} of {n} cases were not run (set-up failed / runner starved; cap 2 %)"))
+    notrun = set(id(ln) for ln in sk)
     kinds, kills, broken_reqs, mid_frame_cuts, retried = {}, 0, 0, 0, 0
     twice, aux_cases, refills = 0, 0, 0
     for ln in lines:
@@ -50,13 +53,15 @@ def _post(lines, verdicts):
             case, obs = ln.split("|", 1)
             f = case.split()
             fk = re.sub(r"(?<=garb).*|(?<=ver).*", "", f[5])
-            if fk.startswith("2x"):
-                twice += 1
-                fk = fk[2:]
-            kinds[fk] = kinds.get(fk, 0) + 1
-            if obs.strip().startswith("skip"):
+            if id(ln) in notrun or obs.strip().startswith("skip"):
                 continue
             kv = dict(t.split("=", 1) for t in obs.split() if "=" in t)
+            if fk.startswith("2x"):
+                fk = fk[2:]
+                # the second fault really fired: two pool connections of node 0 were cut / closed after a fault
+                if sum(kv.get("conns", "").count(x) for x in ("F@", "R@", "X@")) >= 2:
+                    twice += 1
+            kinds[fk] = kinds.get(fk, 0) + 1
             if fk.startswith("burst"):
                 kills += kv.get("conns", "").count("R@") + kv.get("conns", "").count("F@")
             broken_reqs += kv.get("res", "").count("err:broken.")
@@ -82,8 +87,8 @@ def _post(lines, verdicts):
         for k, m in need.items():
             if kinds.get(k, 0) < m:
                 out.append(("diff", lines[0][:300], f"diff only {kinds.get(k, 0)} cases of fault kind {k} (floor {m})"))
-        if twice < 8:
-            out.append(("diff", lines[0][:300], f"diff only {twice} cases with a second fault on the re-established connection (floor 8)"))
+        if twice < 6:
+            out.append(("diff", lines[0][:300], f"diff only {twice} 2x cases in which two connections really broke (floor 6)"))
         if aux_cases < 8:
             out.append(("diff", lines[0][:300], f"diff only {aux_cases} cases with BATCH/PREPARE/paged/USE requests in flight (floor 8)"))
         if refills < 150:
@@ -105,12 +110,14 @@ SPEC = {
     "min_cases": {"quick": 590, "thorough": 24500},
     "search_n": 3000,
     "search_rounds": 2,
+    "runner_timeout": 7200,
     "rule": ("one real Session per case against a fresh mocknode cluster (1-2 nodes, 0/2 shards); n=1..50 requests in flight, "
              "the j-th arriving request triggers the fault: fin/rst = cut of the response stream at byte offset off (every offset "
              "0..frame length+1 of a 3-request script, then random), ver<xx> = bad version byte, unsol = frame for a stream nobody "
              "waits on, garb<hex> = raw bytes (unknown opcode, short header, header announcing more body than follows, random), "
-             "stall = silent connection with keepalive 150ms/250ms; later requests stay unanswered or are answered late; "
-             "corr = one header byte (version, flags, opcode, frame length) of a reply XORed (every such offset x 3 masks); 2x<kind> = the scenario twice, second fault on the re-established connection; aux = BATCH/PREPARE/paged/USE requests in flight as well; "
+             "stall = silent connection with keepalive 400ms/800ms; later requests stay unanswered or are answered late; "
+             "split/neg/flagop/flagcomp/dup/short = split delivery, ignored negative streams, READY/compression-flag frame on a live stream, duplicate reply, short length field; "
+             "corr = one of 7 of the 9 header bytes (version, flags, opcode, 4 length bytes; not the stream id) of a reply XORed (each x 3 masks); 2x<kind> = the scenario twice, second fault on the re-established connection; aux = BATCH / PREPARE / paged iterator / USE requests in flight as well (completion only); "
              "burstrst/burstfin = n client tasks issue j requests each, in 6..12 rounds the mock kills the pool connection(s) of node 0 "
              "while requests are being submitted (the submit/teardown race of finding F15; a fifth of the cases); "
              "non-trivial = fault != none; distinct = distinct case lines"),
@@ -119,14 +126,15 @@ SPEC = {
     "post": _post,
     "trusted_base": [
         "mocknode (harness/src/mocknode): own CQL v4 frame codec, records every byte it wrote and every frame it read per connection",
-        "runner harness/src/bin/c10.rs: maps mocknode's trace to the connection-model alphabet; completion bound 20.4 s (keepalive interval + timeout + 20 s margin), typical completion < 0.5 s",
-        "driver ocaml/c10/driver.ml: decoding of the runner's echo body, search over the delivered prefix after a TCP reset",
+        "runner harness/src/bin/c10.rs: maps mocknode's trace to the connection-model alphabet; completion bound 21.2 s (keepalive interval + timeout + 20 s margin), typical completion < 1.3 s; reports the largest scheduling stall of its own runtime per case",
+        "driver ocaml/c10/driver.ml: conversion of the case line into the extracted types, search over the delivered prefix after a TCP reset, the OCaml-only clauses of the predicate (bound, follow-up, probes, aux, panic), error-class table, 200 ms log-order tolerance of pool events, starvation not-run (stall >= 200 ms turns a diff into a counted not-run, never a viol)",
     ],
     "assumptions": [
         "stream-id allocation is an oracle in Model/ConnFail.v (any free id); the bitmap allocator is C02's subject",
         "TCP: bytes written before an orderly FIN are delivered; after RST any prefix of the written frames may have been delivered (driver tries every prefix)",
         "wall-clock promptness is measured by the tie against a generous bound, not proved",
-        "the pool model (C10_pool*) is proved but not tied beyond the follow-up request being served",
+        "the pool machine is tied through the connection ids observed at the mock for one-connection pools (shards = 0): the recorded a/g/b events, with PProcess inserted by pool_labels before the next replacement (never observed itself), must be a run; a non-run is a diff",
+        "accept_obs (proved sound) is evaluated before ok except in corr/short/garb cases where the mock mis-framed the stream and the body is justified by the model's frame-aligned reader",
     ],
 }
 
